@@ -57,6 +57,7 @@ REQUIRED_COUNTERS = ['decoders_constructed', 'decode_calls',
                      'decode_calls_with_bool_syndrome',
                      'decoders_with_numpy_error_rate',
                      'cells_at_error_rate_0_or_1',
+                     'union_find_cells_on_larger_tori',
                      'same_process_deformation_variants']
 SHARD_TIMEOUT = {'quick': 900, 'thorough': 3600}
 
@@ -201,6 +202,21 @@ def plan(tier, seed):
                                     'rate': rate, 'nrand': nr, 'seed': seed,
                                     'tier': tier,
                                     'cost': per * (nr + 20) + 50})
+    # union-find on larger tori, where clusters merge, close on themselves
+    # and wrap (rates up to the regime where half the syndromes do that)
+    if 'UnionFindDecoder' in decs:
+        for size in ([(4, 4), (6, 6), (8, 8), (10, 3), (10, 10)]
+                     if tier == 'quick' else
+                     [(4, 4), (6, 6), (7, 5), (8, 8), (10, 3), (10, 10),
+                      (12, 12), (9, 14)]):
+            for rate in (0.05, 0.1, 0.15):
+                tasks.append({
+                    'decoder': 'UnionFindDecoder', 'cls': 'Toric2DCode',
+                    'size': list(size), 'code_def': [None, {}],
+                    'noise': 'depol', 'noise_def': [None, {}], 'rate': rate,
+                    'nrand': 40 if tier == 'quick' else 200, 'seed': seed,
+                    'tier': tier, 'large_uf': True,
+                    'cost': 60 * size[0] * size[1]})
     # the end points of the error-rate axis (a sweep that starts at 0 or
     # ends at 1), for every decoder on one or two small lattices
     ends = {'MatchingDecoder': [('Toric2DCode', (3, 4)),
@@ -467,6 +483,8 @@ def run_cell(task, out):
     out.count('cells_' + task['decoder'])
     if task.get('end_point'):
         out.count('cells_at_error_rate_0_or_1')
+    if task.get('large_uf'):
+        out.count('union_find_cells_on_larger_tori')
     out.case(desc, nontrivial=nonzero_seen > 0, n=len(synds),
              sample=dict(desc, n=n, syndromes=len(synds)))
 
